@@ -93,7 +93,7 @@ def run(ctx):
         "Finite table, checked exhaustively: for every name in quantities.__all__ (a) the dimension-exponent vector read from the "
         "real Quantity equals the reference vector (z3, linear equalities), (b) z3 decides over exact rationals, for every pi in "
         "(3.14159265358979, 3.14159265358980), that the SI value scale_factor/1000^mass_exponent lies within the stated relative "
-        "tolerance of a reference value, (c) the seven identities of the statement hold within 1e-8 for every pi in that interval. "
+        "tolerance of a reference value, (c) the seven identities of the statement hold within the tolerance of refs/constants.json (1e-10; 1e-9 for Z0) for every pi in that interval. "
         "The only quantified variable is pi; floats are taken as their exact binary rationals.")
     ctx.functions_encoded = ["symplyphysics.quantities (module-level table)", "Quantity.__init__ (executed at import)"]
     ctx.bounds = ["all exported constants; pi in a rational interval of width 1e-14"]
